@@ -184,6 +184,8 @@ impl<B: Bound> Intervals<B> {
 
     /// Union with a single interval
     pub fn union_interval(mut self, min: B, max: B) -> Self {
+        #[cfg(feature = "verif-hooks")]
+        crate::verif_hooks::tick_n("union_interval", 1 + self.intervals.len() as u64);
         // Make sure min and max are in the right order
         assert!(min <= max);
         // Find the insertion points of the new interval
@@ -265,6 +267,8 @@ impl<B: Bound> Intervals<B> {
 
     /// Intersection with a single interval
     pub fn intersection_interval(mut self, min: B, max: B) -> Self {
+        #[cfg(feature = "verif-hooks")]
+        crate::verif_hooks::tick_n("intersection_interval", 1 + self.intervals.len() as u64);
         // Make sure min and max are in the right order
         assert!(min <= max);
         // Find the insertion points of the new interval
@@ -850,6 +854,10 @@ impl Values<i64> for Intervals<i64> {
         self.capacity
     }
     fn values(&self) -> Vec<i64> {
+        #[cfg(feature = "verif-hooks")]
+        for [a, b] in self.intervals.iter() {
+            crate::verif_hooks::tick_n("values_i64", b.abs_diff(*a));
+        }
         self.intervals
             .clone()
             .into_iter()
@@ -877,6 +885,13 @@ impl Values<NaiveDate> for Intervals<NaiveDate> {
         self.capacity
     }
     fn values(&self) -> Vec<NaiveDate> {
+        #[cfg(feature = "verif-hooks")]
+        for [a, b] in self.intervals.iter() {
+            crate::verif_hooks::tick_n(
+                "values_date",
+                b.signed_duration_since(*a).num_days().unsigned_abs(),
+            );
+        }
         self.intervals
             .clone()
             .into_iter()
